@@ -62,7 +62,9 @@ def run_check(ctx, cid, tier, seed, t0):
         'problems': problems,
     }
     if corr:
-        for k in ('evaluations', 'distinct_nontrivial', 'rule', 'samples', 'traces_validated_against_impl', 'distribution', 'known_findings_reproduced'):
+        cov['known_findings_listed'] = [k['id'] for k in known]
+        cov['known_findings_reproduced'] = sorted(known_hit)
+        for k in ('evaluations', 'distinct_nontrivial', 'rule', 'samples', 'traces_validated_against_impl', 'distribution'):
             if k in corr:
                 cov[k] = corr[k]
     else:
@@ -70,8 +72,9 @@ def run_check(ctx, cid, tier, seed, t0):
                     'traces_validated_against_impl': 0})
     nviol = len(unknown_fail) + (1 if (problems and not unknown_fail) else 0)
     ctx.write_evidence(cid, tier, seed, t0, cov, nviol, spec.get('assumptions', []))
-    for kid, k in known_hit.items():
-        print('KNOWN-FINDING: property=%s %s' % (cid, k['what']))
+    for k in known:
+        rep = 'reproduced in this run' if k['id'] in known_hit else 'not exercised by this run\'s traces'
+        print('KNOWN-FINDING: property=%s %s: %s [%s]' % (cid, k['id'], k['what'], rep))
     if unknown_fail:
         rp = ctx.write_replay(cid, seed, {'property': cid, 'kind': 'failing-input', 'case': unknown_fail[0],
                                           'others': len(unknown_fail) - 1, 'problems': problems,
@@ -383,6 +386,51 @@ register('C12', corr=trace_corr('gov', 'govcases', (48, 1500), lambda op, code: 
          assumptions=['callbacks run to completion (gas metering is not modelled)', 'collision freedom of keccak only where C02 states it'])
 register('C16', corr=trace_corr('gov', 'govcases', (48, 1500), lambda op, code: op['op'] in ('callback', 'withdrawRefund', 'execProposal', 'execOperator') and code & 25, GOV_RULE, gov_nontrivial, monitor=_govmon),
          assumptions=['whether the contract still holds the credited funds when a proposal has meanwhile moved them is outside the property'])
+
+
+ITS_RULE = ('histories generated by harness/src/its_mode.rs (seed=VERIF_SEED): gateway + gas service + ITS + token managers deployed from source; registrations (canonical, custom, '
+            'local 3-step deployments with every minter / supply choice), outbound transfers over every payment shape / gas relation / metadata / destination (trusted, untrusted, '
+            'hub-routed, hub chain, hub unset), inbound messages approved at the real gateway (transfers with and without data, deployments, links; wrapped / unwrapped / wrong source / '
+            'tampered / unknown type), flow limits, pause, trusted-address changes, custom-minter approvals, remote deployments, metadata registration; all asynchronous work '
+            '(transfer-with-data promises, ESDT property lookups, ESDT issuances) delivered by the harness in any order with either outcome and other transactions in between; every 10th '
+            'traces are directed schedules of the recorded findings. Every step compares status, return data, gateway and gas-service events, storage diffs of the service, the gateway '
+            'and every token manager, and balance diffs with the Coq model; Python monitors restate the properties over the implementation observations. '
+            'distinct = distinct operation sequences; non-trivial = at least one accepted and one rejected ITS operation')
+
+
+def its_nontrivial(tr):
+    oks = [s['res']['ok'] for s in tr['steps'] if s['op']['op'] not in ('gwApprove', 'deliver', 'issue')]
+    return any(oks) and not all(oks)
+
+
+def _itsmon(tr, cid):
+    import itsmon
+    return itsmon.monitor(tr, cid)
+
+
+def its_rel(ops, bits):
+    return lambda op, code: (ops is None or op['op'] in ops) and code & bits
+
+
+ITS_N = (50, 1200)
+register('C04', corr=trace_corr('its', 'itscases', ITS_N, its_rel({'execute', 'gwApprove', 'init'}, 27), ITS_RULE, its_nontrivial, monitor=_itsmon),
+         assumptions=['ESDT-level transfer rules (frozen accounts, non-payable recipients) are outside the model', 'zero-amount inbound transfers are not generated'])
+register('C05', corr=trace_corr('its', 'itscases', ITS_N, its_rel({'transfer', 'callContract'}, 31), ITS_RULE, its_nontrivial, monitor=_itsmon),
+         assumptions=['the EGLD-000000 multi-transfer representation of EGLD is modelled but not exercised by the harness'])
+register('C08', corr=trace_corr('its', 'itscases', ITS_N, its_rel({'execute', 'deliver', 'callback'}, 27), ITS_RULE, its_nontrivial, monitor=_itsmon),
+         assumptions=['callbacks run to completion as far as gas is concerned (gas is not modelled)', 'the destination contract is abstracted to an outcome'])
+register('C13', corr=trace_corr('its', 'itscases', ITS_N, its_rel({'execute', 'transfer', 'callContract', 'setTrusted', 'removeTrusted', 'linkToken', 'deployRemote', 'deployRemoteCanonical', 'props'}, 13), ITS_RULE, its_nontrivial, monitor=_itsmon),
+         assumptions=[])
+register('C14', corr=trace_corr('its', 'itscases', ITS_N, its_rel({'registerCanonical', 'registerCustom', 'deployToken', 'execute', 'linkToken'}, 11), ITS_RULE, its_nontrivial, monitor=_itsmon),
+         assumptions=['injectivity of the derivations is stated on preimages; at hash level it needs collision freedom of keccak-256'])
+register('C17', corr=trace_corr('its', 'itscases', ITS_N, its_rel({'registerMetadata', 'deployRemote', 'deployRemoteCanonical', 'props', 'linkToken'}, 29), ITS_RULE, its_nontrivial, monitor=_itsmon),
+         assumptions=['the ESDT system contract lookup is abstracted to its result (success with name/type/decimals, or error)'])
+register('C18', corr=trace_corr('its', 'itscases', ITS_N, its_rel({'deployToken', 'execute', 'issue'}, 27), ITS_RULE, its_nontrivial, monitor=_itsmon),
+         assumptions=['the ESDT issuance is abstracted to its result (token identifier or error); the issue cost is consumed on success'])
+register('C19', corr=trace_corr('its', 'itscases', ITS_N, its_rel({'approveRemote', 'revokeRemote', 'deployRemote'}, 11), ITS_RULE, its_nontrivial, monitor=_itsmon),
+         assumptions=['approval keys: collision freedom of keccak-256 is needed to go from preimages to keys'])
+register('C20', corr=trace_corr('its', 'itscases', ITS_N, its_rel(None, 25), ITS_RULE, its_nontrivial, monitor=_itsmon),
+         assumptions=['metadata registration, minter approvals, role / flow-limit / trusted-address management and views are not pause-gated, following the property text'])
 
 
 # ------------------------------------------------------------------ replay
